@@ -320,9 +320,137 @@ fn sparkline_event() -> impl Strategy<Value = Ev> {
             ];
             props.extend(lvl);
             props.extend(err);
-            Ev { mdl, tpl: vec![TplPart::Text("series ".into()), TplPart::Hole("metric_name".into())], extent, props }
+            Ev { mdl, tpl: vec![TplPart::Text("series ".into()), TplPart::Hole("metric_name".into())], extent, props, layout: Layout::default() }
         },
     )
+}
+
+/// A value of the family the key belongs to (so that a shadowed well-known property is a *valid* one and
+/// "which occurrence won" is visible in the dedicated field).
+fn same_family(key: &str, seed: u32) -> PV {
+    match key {
+        "lvl" => PV::Level((seed % 4) as u8),
+        "trace_id" => PV::TraceId((seed as u128 * 0x1_0000_0001 + 1).to_string()),
+        "span_id" | "span_parent" => PV::SpanId(seed as u64 * 0x1_0001 + 1),
+        "metric_unit" => strp(["s", "ms", "By", "1"][(seed % 4) as usize]),
+        "metric_name" | "span_name" => strp(["alpha", "beta", "gamma"][(seed % 3) as usize]),
+        "evt_kind" => PV::Kind((seed % 2) as u8),
+        _ => prim(Node::I64(seed as i64)),
+    }
+}
+
+/// Values a `ThreadLocalCtxt` frame carries without C19's buffering clause coming into play: primitives,
+/// text, typed well-known values.
+fn ambient_safe(pv: &PV) -> bool {
+    match pv {
+        PV::Node { node, cap: Cap::Prim | Cap::Display | Cap::Debug } => {
+            !matches!(cap_of(pv), Cap::Prim) || matches!(node, Node::Bool(_) | Node::I8(_) | Node::I16(_) | Node::I32(_) | Node::I64(_) | Node::U8(_) | Node::U16(_) | Node::U32(_) | Node::U64(_) | Node::Str(_) | Node::F64(_))
+        }
+        PV::Level(_) | PV::Kind(_) | PV::TraceId(_) | PV::SpanId(_) => true,
+        _ => false,
+    }
+}
+fn cap_of(pv: &PV) -> Cap {
+    match pv {
+        PV::Node { cap, .. } => cap.clone(),
+        _ => Cap::Prim,
+    }
+}
+
+#[derive(Clone, Debug)]
+struct LayoutSpec {
+    groups: Vec<(u32, u8)>,
+    all_unique: bool,
+    frames: Vec<u32>,
+    runtime: bool,
+    erased: bool,
+}
+
+fn layout_spec() -> impl Strategy<Value = LayoutSpec> {
+    (
+        prop::collection::vec((1u32..4, 0u8..4), 1..6),
+        prop::bool::weighted(0.75),
+        prop_oneof![5 => Just(Vec::new()), 4 => prop::collection::vec(1u32..4, 1..2), 1 => prop::collection::vec(1u32..3, 2..3)],
+        prop::bool::weighted(0.3),
+        prop::bool::weighted(0.2),
+    )
+        .prop_map(|(groups, all_unique, frames, runtime, erased)| LayoutSpec { groups, all_unique, frames, runtime, erased })
+}
+
+/// Events whose duplicate keys straddle collections that each claim `is_unique()`: own properties as
+/// tuples / `BTreeMap`s / `dedup()`ed slices concatenated with `and_props`, and events emitted through a
+/// real `Runtime` whose `ThreadLocalCtxt` frame carries properties the event's own ones shadow.
+fn straddle_event() -> impl Strategy<Value = Ev> {
+    (
+        prop_oneof![2 => log_event(), 1 => span_event(), 1 => metric_event()],
+        layout_spec(),
+        prop::collection::vec((any::<u32>(), any::<u32>(), any::<bool>()), 0..3),
+        prop::collection::vec(any::<u32>(), 12),
+    )
+        .prop_map(|(mut ev, spec, extra, seeds)| {
+            // extra shadowed properties, appended (= ambient / later collections), most of them well-known
+            for (i, seed, well_known) in extra {
+                if ev.props.is_empty() {
+                    break;
+                }
+                let wk: Vec<usize> = ev
+                    .props
+                    .iter()
+                    .enumerate()
+                    .filter(|(_, p)| matches!(p.key.as_str(), "lvl" | "trace_id" | "span_id" | "span_parent" | "metric_unit"))
+                    .map(|(i, _)| i)
+                    .collect();
+                let src = if well_known && !wk.is_empty() { wk[vcore::pick(i, wk.len())] } else { vcore::pick(i, ev.props.len()) };
+                let key = ev.props[src].key.clone();
+                let val = same_family(&key, seed);
+                ev.props.push(Prop { key, val });
+            }
+            // give every occurrence of a repeated well-known key a valid value of its family (2 in 3)
+            for i in 0..ev.props.len() {
+                let key = ev.props[i].key.clone();
+                let repeated = ev.props.iter().filter(|p| p.key == key).count() > 1;
+                let seed = seeds[i % seeds.len()];
+                if repeated && matches!(key.as_str(), "lvl" | "trace_id" | "span_id" | "span_parent" | "metric_unit") && seed % 3 != 0 {
+                    ev.props[i].val = same_family(&key, seed / 3 + i as u32);
+                }
+            }
+            // frames: only values a frame carries verbatim; keep the tail run that qualifies
+            let n = ev.props.len();
+            let mut frames: Vec<u32> = Vec::new();
+            let mut end = n;
+            for len in spec.frames.iter().rev() {
+                let mut len = (*len as usize).min(end);
+                while len > 0 && !ev.props[end - len..end].iter().all(|p| ambient_safe(&p.val)) {
+                    len -= 1;
+                }
+                if len == 0 {
+                    break;
+                }
+                frames.insert(0, len as u32);
+                end -= len;
+            }
+            let kinds = [GKind::Tuple, GKind::Map, GKind::Dedup, GKind::Slice];
+            let mut groups = Vec::new();
+            let mut at = 0;
+            for (len, k) in &spec.groups {
+                if at >= end {
+                    break;
+                }
+                let mut kind = kinds[*k as usize % 4];
+                if spec.all_unique && kind == GKind::Slice {
+                    kind = GKind::Dedup;
+                }
+                let len = if kind == GKind::Tuple { 1 } else { (*len as usize).min(end - at) };
+                groups.push(Group { len: len as u32, kind });
+                at += len;
+            }
+            if at < end {
+                // cover the remainder so that no implicit slice spoils an all-unique layout
+                groups.push(Group { len: (end - at) as u32, kind: if spec.all_unique { GKind::Map } else { GKind::Slice } });
+            }
+            ev.layout = Layout { groups, frames, runtime: spec.runtime, erased: spec.erased };
+            ev
+        })
 }
 
 // ---------------------------------------------------------------------------------------------
@@ -420,12 +548,19 @@ fn main() {
             ("otlp-traces-json", 125),
             ("otlp-metrics-proto", 100),
             ("otlp-metrics-json", 100),
+            // duplicates whose occurrences live in different collections that each claim `is_unique()`
+            // (tuples / BTreeMaps / dedup()ed slices joined by and_props, own props over a ThreadLocalCtxt frame)
+            ("duplicate-straddles-unique-collections", 90),
+            ("straddle-well-known-key", 55),
+            ("straddle-own-shadows-ambient", 40),
+            ("layout-runtime-frame", 60),
         ] {
             s.require(class, min);
         }
         s.gen("log-events", s.n(2400, 160_000), log_event, |ev, cx| check_event(ev, cx, ALL_SINKS));
         s.gen("span-events", s.n(1600, 110_000), span_event, |ev, cx| check_event(ev, cx, ALL_SINKS));
         s.gen("metric-events", s.n(2000, 130_000), metric_event, |ev, cx| check_event(ev, cx, ALL_SINKS));
+        s.gen("straddle-events", s.n(1600, 100_000), straddle_event, |ev, cx| check_event(ev, cx, ALL_SINKS));
         s.gen("term-sparkline", s.n(1500, 60_000), sparkline_event, |ev, cx| {
             check_event(ev, cx, Sinks { file: false, otlp: false, term: true })
         });
